@@ -185,13 +185,13 @@ Definition store (h : heap) (p : option ptr) (v : bytes) : heap :=
 Definition read_binary (enable : bool) (h : heap) (c : cache) (inp : gslice)
            (contended : bool) (capo : N) (dirt : bytes) : res (heap * cache * gslice * N) :=
   do (c', b, a, v, l) <- rb_plan enable c (length h) (slice_bytes h inp) contended capo;
-  Ok (store (apply_alloc h a dirt) (sptr b) v, c', b, l).
+  Ok (store (apply_alloc h a dirt) (sptr b) (take (slen b) v), c', b, l).   (* copy(p, v) copies min(len p, len v) *)
 
 (* Binary.ReadString(buf) on the heap *)
 Definition read_string (enable : bool) (sb : nat) (h : heap) (c : cache) (inp : gslice)
            (contended static : bool) (dirt : bytes) : res (heap * cache * gstring * N) :=
   do (c', s, a, w, v, l) <- rs_plan enable c sb (length h) (slice_bytes h inp) contended static;
-  Ok (store (apply_alloc h a dirt) w v, c', s, l).
+  Ok (store (apply_alloc h a dirt) w (take (tlen s) v), c', s, l).
 
 (* a sequence of Makes on one cache: (n, contended) requests; block ids continue from nb *)
 Fixpoint run_makes (c : cache) (nb : nat) (reqs : list (Z * bool)) : res (cache * nat * list gslice * list N) :=
